@@ -187,6 +187,18 @@ def check_backtick(name):
         return {"kind": "backtick_wrong", "name": name, "got": repr(p)}
     if refexpr.variables(q) != {name}:
         return {"kind": "backtick_wrong_in_context", "name": name, "got": repr(q)}
+    # several quoted names in ONE string: each pair of backticks delimits its own name
+    other = "<p>k2"
+    if name != other:
+        try:
+            r = parse("`%s` + `%s`*`%s`" % (name, other, name))
+            c = parse("`<func>f`(`%s`, t=`%s`) < `%s`" % (name, other, name))
+        except Exception as exc:  # noqa
+            return {"kind": "backtick_parse_error_two_names", "name": name, "exc": "%s: %s" % (type(exc).__name__, str(exc)[:100])}
+        if refexpr.variables(r) != {name, other} or type(r).__name__ != "Sum":
+            return {"kind": "backtick_wrong_two_names", "name": name, "got": repr(r)}
+        if refexpr.variables(c, include_functions=True) != {name, other, "<func>f"}:
+            return {"kind": "backtick_wrong_two_names_in_call", "name": name, "got": repr(c)}
     return None
 
 
